@@ -369,9 +369,28 @@ def _pow(ctx, case):
     elif pk.startswith('rpow'):
         xd = gen.series_data(rng, D, P, xs, 'R', 'random', cplx)
         b = {'rpow_float': 2.5, 'rpow_int': 3, 'rpow_complex': 1.5 + 0.5j}[pk]
-        call = lambda x: b ** x
+        if pk == 'rpow_complex' and rng.random() < 0.4:
+            b = complex(-2.0, 0.0)            # a negative number given as a complex base: the principal value, log(-2+0j) = log 2 + i pi
+        # the base in the spellings NumPy accepts: scalars of lower precision are promoted to the precision of the polynomial (as in
+        # numpy.float32(2.5) ** x_0), so the result is the same to working accuracy
+        bs = b
+        if pk == 'rpow_float':
+            bs = [b, np.float64(b), np.float32(b), np.float16(b), np.array(b, dtype=np.float32)][int(rng.integers(5))]
+        elif pk == 'rpow_complex' and rng.random() < 0.4 and b.imag != 0:
+            bs = np.complex64(b)
+        elif pk == 'rpow_int':
+            bs = [b, np.int16(b), np.uint8(b), float(b)][int(rng.integers(4))]
+        call = lambda x: bs ** x
         mpf = lambda z: mp.exp(z * mp.log(O.num(b)))
         exact = None; yd = None
+        # the same numerical value was used as a base before, in other spellings (single / half precision scalars, the complex
+        # number with zero imaginary part), and so was its negative
+        for other in [np.float32(b.real), np.float16(b.real), complex(b), np.complex64(b), -b, np.float32(-b.real), complex(-b.real, 0.0)]:
+            if rng.random() < 0.6:
+                try:
+                    other ** UTPM(xd[:1, :1].copy())
+                except Exception:
+                    pass
     else:
         xd = gen.series_data(rng, D, P, xs, 'pos', 'random', False)
         if data == 'tiny':
